@@ -27,7 +27,7 @@ class SramWorld(World):
     def gen_config(self, rng, prop):
         dw = rng.choice([8, 16, 32, 64])
         g = rng.choice([x for x in (8, 16, 32, 64) if x <= dw])
-        size = rng.choice([s for s in (1, 2, 4, 8, 16, 32, 64, 256) if s * g >= dw or rng.chance(0.1)])
+        size = rng.choice([s for s in (1, 2, 4, 8, 16, 32, 64, 256, 1024) if s * g >= dw or rng.chance(0.1)])
         depth = max(1, size * g // dw)
         return {"dw": dw, "g": g, "size": size, "writable": int(rng.chance(0.75)),
                 "init": [rng.bits(dw) for _ in range(depth if rng.chance(0.8) else depth // 2)]}
